@@ -1,9 +1,8 @@
 /* C20: mem_zero_detect_base (mem/mem_zero_detect_base.c), the portable zero-detect routine.
- * The contract variant is selected by -DMZD_COMPLETE / -DMZD_CALLOC (see contracts/mem_contracts.h). */
+ * The contract variant is selected by -DMZD_CALLOC / -DMZD_LEN0 (see contracts/mem_contracts.h). */
 #include <stdlib.h>
 #include "mem_contracts.h"
-size_t g_p, g_n0, w_k;
-int w_found;
+size_t g_p, g_n0;
 #include "splice_defaults.h"
 #include "mem/mem_zero_detect_base.c"
 
@@ -18,18 +17,7 @@ h_mzd_sound(void)
         VCANARY();
 }
 
-/* (b1) completeness by witness (compile with -DMZD_COMPLETE) */
-void
-h_mzd_complete(void)
-{
-        void *buf;
-        size_t n;
-        int r = mem_zero_detect_base(buf, n);
-        (void) r;
-        VCANARY();
-}
-
-/* (b2) completeness on a calloc'd region of symbolic size (compile with -DMZD_CALLOC) */
+/* (b) completeness on a calloc'd region of symbolic size (compile with -DMZD_CALLOC) */
 void
 h_mzd_calloc(void)
 {
